@@ -78,6 +78,10 @@ def gen_op(rng, w, chosen_price_stream):
         return op, cls
     k = rng.choice(keys)
     held = int(m.positions[k].liquidity)
+    if r < 0.36:
+        # more liquidity for a range that already holds a position (the position is increased, not created)
+        (b, cb), (q, cq) = amount_class(rng, bb), amount_class(rng, qb)
+        return {"op": "add_by_tick", "lower": k.lower_tick, "upper": k.upper_tick, "base": b, "quote": q, "sqrt": None, "tick": None, "trim": True}, f"{cb}/{cq}:again"
     if r < 0.5:
         liq, cls = rng.choice(((None, "all"), (held // 2, "part"), (held, "exact"), (held * 10 + 7, "more-than-held"), (0, "zero"), (-3, "negative")))
         op = {"op": "remove", "lower": k.lower_tick, "upper": k.upper_tick, "liq": liq, "collect": rng.random() < 0.5, "sqrt": None, "remove_dry": rng.random() < 0.8}
